@@ -13,6 +13,8 @@ CONSTANTS
   FailBudget = 1
   MaxNow = 12
   EnableClose = TRUE
+  Ctrls = {0, 1}
+  Urgent = FALSE
 INVARIANTS Bounded NoDupDelivery NoStuck
 VIEW view
 CHECK_DEADLOCK FALSE
